@@ -144,7 +144,7 @@ def _run_variant(args):
 
 
 # seeds whose mechanism is documented as undecidable by shape (DESIGN 9.3)
-ERROR_ONLY_ACCEPTED = {"C13-s1", "C06-s8", "C18-s11"}
+ERROR_ONLY_ACCEPTED = {"C13-s1", "C18-s11"}
 
 
 def run(prop: str, res: Result) -> None:
